@@ -148,8 +148,24 @@ def registering(F):
     return out
 
 
-def _is_clone_of_snapshot(m, e):
+def _peel(e):
+    """`Struct{a, b}.field` -> the element: a value parked in a private struct keeps its identity"""
     e = deep_strip(e)
+    for _ in range(8):
+        if e[0] in ("ref", "cast", "deref"):
+            e = deep_strip(e[1]); continue
+        if e[0] == "field":
+            b = deep_strip(e[1])
+            while b[0] in ("ref", "deref"):
+                b = deep_strip(b[1])
+            if b[0] == "agg" and b[1][0] in ("adt", "tuple", "closure") and e[3] is not None and e[3] < len(b[2]):
+                e = deep_strip(b[2][e[3]]); continue
+        break
+    return e
+
+
+def _is_clone_of_snapshot(m, e):
+    e = _peel(e)
     while e[0] in ("ref", "cast"):
         e = deep_strip(e[1])
     if e[0] != "call":
@@ -188,10 +204,9 @@ def rule_c(ctx):
                     okk = False
             # written on a local clone, not through the published pointer
             pl = s["l"]
-            if any(p["k"] == "deref" for p in pl["p"]):
-                base = fl.local(pl["l"], (bb, si))
-                on_clone = bool(base) and all(_is_clone_of_snapshot(n, e) for e in base)
-            else:
+            owner = fl.place({"l": pl["l"], "p": pl["p"][:-1]}, (bb, si))      # the SignalData value whose next_id is written
+            on_clone = bool(owner) and all(_is_clone_of_snapshot(n, e) for e in owner)
+            if not on_clone and not any(p["k"] == "deref" for p in pl["p"]) and len(pl["p"]) == 1:
                 on_clone = n.local_ty(pl["l"]) == DATA_T
             ctx.check(okk and on_clone, rid, "next_id:+1@%s" % keyname(i.name), "next_id is only ever set to old+1, on the local clone of the snapshot", s["sp"],
                       {"value": [show(e) for e in ex], "on_local_clone": on_clone})
